@@ -206,12 +206,13 @@ theorem C09_route_exec_iff (cfg : RouteCfg) (name : String) (loc peer : NodeRang
     rw [this]
 
 /-- **C09 (routing), active redirection on**: a slot listed only by peers is handed to a peer listing
-it (wrapped as `UMFORWARD t …` when `max_redirections` is configured) or answered
-`ERR_TOO_MANY_REDIRECTIONS`; never MOVED. -/
+it, always wrapped as `UMFORWARD t …` (/repo 04a2318; `t` = budget − 1 with budget = `max_redirections`
+− 1, or `usize::MAX` when unlimited), or answered `ERR_TOO_MANY_REDIRECTIONS` when the budget is 0;
+never MOVED. -/
 theorem C09_route_active (cfg : RouteCfg) (name : String) (loc peer : NodeRanges) (key : Bytes)
     (hname : name ≠ "") (har : cfg.activeRedirection = true)
     (hl : ∀ e ∈ loc, covers e.2 (slotOf key) = false) (hp : ∃ e ∈ peer, covers e.2 (slotOf key) = true) :
-    (∃ a rs w, routeKey cfg (ClusterMap.install cfg name loc peer) key = .forward (slotOf key) a w ∧
+    (∃ a rs t, routeKey cfg (ClusterMap.install cfg name loc peer) key = .forward (slotOf key) a (some t) ∧
         (a, rs) ∈ peer ∧ covers rs (slotOf key) = true) ∨
     routeKey cfg (ClusterMap.install cfg name loc peer) key = .errTooManyRedirections := by
   have hs : slotOf key < SLOT_NUM := Um.Crc16.slotOf_lt key
@@ -230,11 +231,17 @@ theorem C09_route_active (cfg : RouteCfg) (name : String) (loc peer : NodeRanges
   simp only [if_true]
   have hmem : (peer.map (·.1)).contains a = true := by
     simp only [List.contains_eq_mem, List.mem_map, decide_eq_true_eq]; exact ⟨(a, rs), hm, rfl⟩
+  obtain ⟨t, ht⟩ := redirBudget_isSome cfg none
   unfold sendRemoteDirectly
-  simp only [ClusterMap.install, har, if_true, hmem]
+  simp only [ClusterMap.install, har, if_true, hmem, ht, Option.map_some]
   split
   · exact Or.inr rfl
   · exact Or.inl ⟨a, rs, _, rfl, hm, hc⟩
+
+/-- without `max_redirections` the forwarded command carries `UMFORWARD 18446744073709551614` -/
+example : routeKey { activeRedirection := true } (ClusterMap.install { activeRedirection := true } "c" []
+    [("10.0.0.2:5299", [(0, 16383)])]) [97] = .forward 15495 "10.0.0.2:5299" (some 18446744073709551614) := by
+  unfold routeKey; rw [routeSlot_install _ _ _ _ _ _ (by decide)]; decide
 
 /-- **`ERR_CLUSTER_NOT_FOUND` iff nothing is installed** (and no default redirection address is
 configured; with one, the answer is `MOVED <slot> <default>`) -/
@@ -347,7 +354,7 @@ theorem C09_multikey_partial (cfg : RouteCfg) (cm : ClusterMap) (backend : Addr 
         have e1 : ((handlerOf c).1 == "handle_mget") = false := by simp [h1]
         have e2 : ((handlerOf c).1 == "handle_mset") = false := by simp [h2]
         simp only [e1, e2, h3, beq_self_eq_true, Bool.false_eq_true, if_false, if_true]
-        rw [handleMsetnx_refused cfg cm backend c har hks]
+        rw [handleMsetnx_refused cfg cm backend rt c har hks]
         exact ⟨rfl, ⟨_, rfl⟩, fun _ => rfl⟩
       · by_cases h4 : (handlerOf c).1 = "handle_multi_int_cmd"
         · have har : cfg.activeRedirection = false := by
